@@ -74,6 +74,22 @@ CLAIMED = {
               "of the comparison are the library itself, so no decoder is re-implemented."),
         technique=TECH + ": seeded process histories of loads / failing loads / uses in a fresh fork per run, oracle = "
                          "load-it-first baseline from a pristine child"),
+    "C11": dict(
+        level="exploration", design="4.3",
+        text=("Each run (one freshly forked process) loads 1-2 generated XTCE documents, creates 1-6 packet generators with drawn "
+              "options over bytes / simulated disk / simulated sockets on one shared event queue, and lets a seeded scheduler "
+              "decide which generator receives each next(), when one is abandoned (close), when another document is loaded "
+              "(other namespace convention, possibly failing) and when parse_ccsds_packet is called directly on the shared "
+              "definition in between. Streams mix recognised, unknown-APID, ambiguous, two-level dead-end and wrong-length "
+              "packets. Every generator's item and warning sequences must equal the concatenation of what a fresh generator "
+              "yields for each packet alone on a separately loaded definition object (computed in stream order and in reverse "
+              "order on two objects, which must agree); category facts known by construction are checked directly; fingerprint "
+              "and serialisation of each shared definition must be unchanged."),
+        note=("Both sides of the main comparison are the library; the property is that they agree. Packets whose stand-alone "
+              "parse raises (which would end a generator; the statement is silent) are weeded out at plan time and counted. "
+              "One thread: no pre-emption inside next()."),
+        technique=TECH + ": seeded scheduler interleaving next()/close()/load/direct-parse over several generators sharing "
+                         "definitions, oracle = each packet parsed alone on an untouched definition"),
 }
 
 PENDING = {
